@@ -90,14 +90,14 @@ Print Assumptions C17_hist_restart_in_flight_before_834ed95.
 Theorem C17_ctx_all_freed :
   forall t0 os beh res,
   (forall k, Forall (fun o => match o with OInit => False | _ => True end) (beh k)) ->
-  live_ctx (fst (fst (drain true drain_fuel (close_all (fst (run true (init t0) os beh 0))) res beh 0))) = 0%nat.
+  live_ctx (fst (fst (drain true drain_fuel (close_all (set_ut (fst (run true (init t0) os beh 0)) [])) res beh 0))) = 0%nat.
 Proof. intros t0 os beh res B. exact (proj2 (closes_clean_current t0 os beh res B)). Qed.
 Print Assumptions C17_ctx_all_freed.
 
 Theorem C17_never_blocks_loop_close :
   forall t0 os beh res,
   (forall k, Forall (fun o => match o with OInit => False | _ => True end) (beh k)) ->
-  loop_close (fst (fst (drain true drain_fuel (close_all (fst (run true (init t0) os beh 0))) res beh 0))) = 0.
+  loop_close (fst (fst (drain true drain_fuel (close_all (set_ut (fst (run true (init t0) os beh 0)) [])) res beh 0))) = 0.
 Proof. intros t0 os beh res B. exact (proj1 (closes_clean_current t0 os beh res B)). Qed.
 Print Assumptions C17_never_blocks_loop_close.
 
